@@ -47,9 +47,10 @@ type World struct {
 	phiVisiting map[*ssa.Phi]bool
 	// CanonI: inline simple pure helpers while rendering
 	inlineHelpers bool
-	phiSubst      map[*ssa.Phi]ssa.Value // branch markers: phis print as the value of the edge the path took
-	evmAtomic     bool                   // A-4 holds: EVMCtrler.ExecuteTrx reverts to its snapshot on every failure
-	neverFails    func(*ssa.Call) bool   // steps whose error edge is dead (checked side conditions)
+	lastRetBlocks map[ssa.Value]*ssa.BasicBlock // returnedValues: the block each value was returned from
+	phiSubst      map[*ssa.Phi]ssa.Value        // branch markers: phis print as the value of the edge the path took
+	evmAtomic     bool                          // A-4 holds: EVMCtrler.ExecuteTrx reverts to its snapshot on every failure
+	neverFails    func(*ssa.Call) bool          // steps whose error edge is dead (checked side conditions)
 	payloadTab    map[int64]string
 	cur           *pathCtxt // path being enumerated (event callbacks only)
 	pureMemo      map[*ssa.Function]bool
